@@ -532,7 +532,29 @@ def _contains_sym(v):
     return False
 
 
-OPAQUE_MSG = '<sx:message with symbolic parts>'
+class OpaqueStr(str):
+    """result of formatting a message with symbolic parts: formatting is not the
+    subject; the text must never reach the output of the code under test"""
+
+    def encode(self, *a, **k):
+        raise Unmodelled('opaque formatted text was encoded')
+
+
+OPAQUE_MSG = OpaqueStr('<sx:message with symbolic parts>')
+
+
+def _wide_range(v):
+    """does the symbolic int take values far apart? (then a str-format of it is
+    treated as message text instead of being enumerated)"""
+    ctx = Ctx.cur
+    m = ctx.model()
+    if m is None:
+        return False
+    v0 = m.eval(v.e, True).as_long()
+    keep = ctx.model_cache
+    r = ctx.check(z3.Or(v.e > v0 + 64, v.e < v0 - 64))
+    ctx.model_cache = keep
+    return r != z3.unsat
 
 _FMT_RE = _re.compile(r'(%(?:\([^)]*\))?[-#0 +]*\d*(?:\.\d+)?[sdrai%])')
 
@@ -570,6 +592,9 @@ def h_mod(l, r):
                 elif isinstance(v, SInt):
                     if kind is bytes and p == '%s':
                         raise TypeError('%b requires a bytes-like object')
+                    if kind is str and _wide_range(v):
+                        Ctx.cur.flag('opaque-format')
+                        return OPAQUE_MSG
                     txt = str(v.concretize())
                     el += tuple(map(ord, txt))
                 elif isinstance(v, SBool):
